@@ -37,8 +37,8 @@ func NewTableConfig(spoolDir, badMetricsMaxAge string, vLegacy validate.LevelLeg
 	if err != nil {
 		return TableConfig{}, fmt.Errorf("could not parse badMetrics max age: %s", err.Error())
 	}
-	if maxAge <= 0 {
-		return TableConfig{}, fmt.Errorf("badMetrics max age must be positive, got %s", maxAge)
+	if maxAge < time.Second {
+		return TableConfig{}, fmt.Errorf("badMetrics max age must be at least 1s, got %s", maxAge)
 	}
 
 	return TableConfig{
